@@ -8,6 +8,7 @@ CONSTANTS
   Alphabet <- RawAlphabet
   MaxLen = 4
   Prefix <- cNoPrefix
+  Suffix <- cNoPrefix
   PatternKw <- cPattern
 INIT Init
 NEXT Next
